@@ -242,6 +242,11 @@ class Effects:
                 cs = sites.get(id(n))
                 ext = cs.external if cs is not None else None
                 fnn = n.func
+                # "<text that already contains data>".format(..): the data is parsed as a format string ('{', '}' in a path,
+                # a name, a message raise KeyError / IndexError / ValueError)
+                if isinstance(fnn, ast.Attribute) and fnn.attr == "format" and self._computed_format_string(f, fnn.value, n):
+                    for exc_ in ("LookupError", "ValueError"):
+                        add(n, exc_, "format-of-formatted")
                 # dict.pop(k) without default
                 if isinstance(fnn, ast.Attribute) and fnn.attr == "pop" and len(n.args) == 1 and not n.keywords \
                         and ext == "method:pop":
@@ -438,6 +443,29 @@ class Effects:
         if g:
             return g
         return None
+
+    def _computed_format_string(self, f: FunctionInfo, recv: ast.AST, at: ast.AST) -> bool:
+        """the receiver of .format() is an f-string (or '%'-formatted / concatenated text) with interpolated values, directly
+        or through a local name bound once to one"""
+        def interpolated(e: ast.AST) -> bool:
+            if isinstance(e, ast.JoinedStr):
+                return any(isinstance(v, ast.FormattedValue) for v in e.values)
+            if isinstance(e, ast.BinOp) and isinstance(e.op, ast.Mod) and isinstance(e.left, (ast.Constant, ast.JoinedStr)):
+                return True
+            if isinstance(e, ast.BinOp) and isinstance(e.op, ast.Add):
+                return interpolated(e.left) or interpolated(e.right)
+            return False
+
+        if interpolated(recv):
+            return True
+        if isinstance(recv, ast.Name) and f.name != "<module>":
+            from .dataflow import flow_of
+
+            flow = flow_of(f.node)
+            node = flow.node_of(at)
+            ds = flow.defs_reaching(node.id, recv.id) if node is not None else []
+            return bool(ds) and all(d.kind == "assign" and d.value is not None and interpolated(d.value) for d in ds)
+        return False
 
     def _index_of_guard(self, f: FunctionInfo, sub: ast.AST, v: ast.AST, s: ast.AST) -> Optional[str]:
         """``K[i]`` with ``i = V.index(x)`` where K and V are the key list and value list of one mapping (or the
